@@ -365,6 +365,12 @@ func init() {
 		}
 		return st
 	})
+	reg("vh/vf.WithTxHashOnly", func(e *Exec, a []Value) Value {
+		c := *a[0].(ModelVal).Obj.(*CtxModel)
+		c.TxHash = IfaceVal{T: types.NewSlice(types.Typ[types.Byte]), V: a[1]}
+		c.MsgIndex = IfaceVal{}
+		return ModelVal{Kind: "ctx", Obj: &c}
+	})
 	regFn("vh/vf.Store", func(e *Exec, fn *ssa.Function, a []Value) Value {
 		c := a[0].(ModelVal).Obj.(*CtxModel)
 		return IfaceVal{T: fn.Signature.Results().At(0).Type(), V: ModelVal{Kind: "store", Obj: c.Env.Store}}
